@@ -108,7 +108,7 @@ PatternMatch(alts, s) == \E k \in DOMAIN alts : AltMatches(alts[k], s)
 
 \* handlers/base.py isrequestsecure (a file name cannot contain NUL or "/")
 BadSubstrings == {"./", "..", "//", ".\\", "\\\\"}
-IsSecure(s) == \A bad \in BadSubstrings : ~Contains(s, bad)
+IsSecure(s) == (\A bad \in BadSubstrings : ~Contains(s, bad)) /\ ~EndsWith(s, "/.")
 --------------------------------------------------------------------------------
 Names(dd)      == {k.name : k \in dd.kids}
 KidOf(dd, n)   == CHOOSE k \in dd.kids : k.name = n
